@@ -108,6 +108,9 @@ def run(ctx):
             runs.append(('monolithic', o['out']['dispatch']))
         if isinstance(o.get('split'), dict) and o['split'].get('solve') == 'optimal' and o['split'].get('out'):
             runs.append(('split', o['split']['out']['dispatch']))
+        if o.get('problem_changed_by_optimize'):
+            ctx.violation('impl-violation', {'spec': sp, 'observed': {'fields of the problem changed by optimize()': o['problem_changed_by_optimize']},
+                                             'expected': 'the rows the solver worked on are the assembled ones (nodal rows untouched)'}, trigger={'what': 'problem changed by optimize'})
         for mode, disp in runs:
             ctx.cov['impl_oracle_evaluations'] += 1
             bad = util.nodal_imbalance(o, disp)
